@@ -119,8 +119,12 @@ def gen_case(seed, tier='quick'):
         op = {'op': 'persist', 'path': rng.choice(paths),
               'bufsize': rng.choice([16, 64, 512, 8192])}
         if faulty and rng.random() < 0.45:
-            k = rng.choice(['eio', 'enospc', 'torn', 'short', 'short'])
-            if k == 'eio':
+            k = rng.choice(['eio', 'enospc', 'torn', 'short', 'short',
+                            'interrupt'])
+            if k == 'interrupt':
+                op['fault'] = {'kind': 'interrupt',
+                               'frac': round(rng.uniform(0.0, 1.1), 3)}
+            elif k == 'eio':
                 op['fault'] = {'kind': 'eio', 'at': rng.choice([1, 1, 2, 3])}
             elif k == 'short':
                 op['fault'] = {'kind': 'short', 'seed': rng.randrange(1 << 30)}
@@ -278,10 +282,18 @@ def _run(case, fs, amb):
         elif kind == 'persist':
             path = op['path']
             fault = op.get('fault')
-            wf, short = None, None
+            wf, short, at = None, None, None
             if fault is not None:
                 if fault['kind'] == 'short':
                     short = fault['seed']
+                elif fault['kind'] == 'interrupt':
+                    # steps of a fault-free dry run decide where it lands
+                    fs.reset_op(bufsize=op.get('bufsize'))
+                    st = Stepper()
+                    with st:
+                        outcome_of(model.persist_to_json_file,
+                                   '/simfs/.dry' + path[path.rfind('/') + 1:])
+                    at = max(1, int(st.steps * fault['frac']))
                 elif fault['kind'] == 'eio':
                     wf = {'kind': 'eio', 'at': fault['at']}
                 else:
@@ -298,7 +310,11 @@ def _run(case, fs, amb):
             before = dump_model(model)
             fs.reset_op(bufsize=op.get('bufsize'), write_fault=wf,
                         short_seed=short)
-            out = outcome_of(model.persist_to_json_file, path)
+            st = Stepper(interrupt_at=at)
+            with st:
+                out = outcome_of(model.persist_to_json_file, path)
+            if st.fired == 'interrupt':
+                fs.fired('interrupt_in_persist')
             if out != ['crash'] and dump_model(model) != before:
                 # not promised by the statement either way: counted only
                 bump('probe:persist_changed_original')
@@ -327,7 +343,9 @@ def _run(case, fs, amb):
             if out[0] != 'ok':
                 # raised: no claim about the file
                 snaps.pop(path, None)
-                if out[0] == 'exc' and not any(
+                if out == ['interrupt']:
+                    bump('probe:persist_interrupted')
+                elif out[0] == 'exc' and not any(
                         f in ('write_eio', 'write_enospc') for f in fired):
                     viol = fail('persist-raised', seq, path=path, outcome=out,
                                 state=state)
